@@ -516,7 +516,7 @@ class Run:
         if isinstance(op, (ast.Is, ast.IsNot)):
             r = self._is(a, b, n)
             if isinstance(op, ast.IsNot):
-                return (not r) if isinstance(r, bool) else wrap(z3.Not(r), "bool")
+                return (not r) if isinstance(r, bool) else wrap(z3.Not(z(r)), "bool")
             return r
         if isinstance(op, (ast.In, ast.NotIn)):
             r = self.contains(b, a, n)
@@ -536,7 +536,7 @@ class Run:
                 return self._is(a, b, n)
             if isinstance(op, ast.NotEq):
                 r = self._is(a, b, n)
-                return (not r) if isinstance(r, bool) else wrap(z3.Not(r), "bool")
+                return (not r) if isinstance(r, bool) else wrap(z3.Not(z(r)), "bool")
         ka, kb = self._kind(a), self._kind(b)
         if _is_py(a) and _is_py(b):
             return _PYCMP[type(op)](a, b)
@@ -558,10 +558,20 @@ class Run:
         if ka == kb and ka not in ("?",) and isinstance(op, (ast.Eq, ast.NotEq)):
             t = z(a) == z(b)
             return wrap(t if isinstance(op, ast.Eq) else z3.Not(t), "bool")
-        if ka in ("optstr", "optint") or kb in ("optstr", "optint"):
+        if (ka in ("optstr", "optint") or kb in ("optstr", "optint")) and isinstance(op, (ast.Eq, ast.NotEq)):
             k = ka if ka.startswith("opt") else kb
             t = z(a, k) == z(b, k)
             return wrap(t if isinstance(op, ast.Eq) else z3.Not(t), "bool")
+        if ka == "optint" or kb == "optint":
+            # ordering comparison with an Optional[int]: TypeError when it is None, else compare the ints
+            def unopt(v: Any) -> Any:
+                if isinstance(v, Sym) and v.k == "optint":
+                    if self.branch(OptInt.is_none_i(v.t), f"cmpNone{self._rel(n)}"):
+                        raise PyExc("TypeError", "ordering comparison with None")
+                    return Sym(OptInt.ival(v.t), "int")
+                return v
+
+            return self.compare(op, unopt(a), unopt(b), n)
         raise OutOfDialect(f"compare {type(op).__name__} on {ka},{kb}", n)
 
     def _is(self, a: Any, b: Any, n: ast.AST) -> Any:
